@@ -70,6 +70,28 @@ def to_z3(v):
     raise Unsupported(f"cannot convert {v!r} to a solver term")
 
 
+def same_value(a, b):
+    """semantic equality of two interpreter values for use in harness obligations: a formula when either side is a solver term,
+    a python bool otherwise -- so that a rewritten-but-equal expression in the code (x + 0, int(x), any(...) for a loop)
+    does not fail an obligation that compares terms by identity"""
+    if a is b:
+        return True
+    za, zb = isinstance(a, z3.ExprRef), isinstance(b, z3.ExprRef)
+    if za or zb:
+        try:
+            ta, tb = to_z3(a), to_z3(b)
+        except Unsupported:
+            return False
+        if ta.sort() != tb.sort():
+            return False
+        return ta == tb
+    if isinstance(a, bool) or isinstance(b, bool) or a is None or b is None:
+        return a is b
+    if isinstance(a, int) and isinstance(b, int):
+        return a == b
+    return False
+
+
 def zbool(v):
     if isinstance(v, bool):
         return z3.BoolVal(v)
